@@ -23,12 +23,13 @@ Require Import OV.Base.C09_HL OV.Gen.C09_Excutils.
 
 (* an exception class: a tag, whether it can be instantiated without arguments, whether it
    derives from Exception (as opposed to BaseException only) *)
-Record cls := mkcls { cid : N; ctor0 : bool; isexc : bool }.
-Definition cls_runtime := mkcls 100 true true.     (* RuntimeError *)
-Definition cls_type := mkcls 101 true true.        (* TypeError *)
-Definition cls_attr := mkcls 102 true true.        (* AttributeError *)
+(* ... and whether its instances are true in a boolean context (a class may define __len__ / __bool__) *)
+Record cls := mkcls { cid : N; ctor0 : bool; isexc : bool; truthy : bool }.
+Definition cls_runtime := mkcls 100 true true true.     (* RuntimeError *)
+Definition cls_type := mkcls 101 true true true.        (* TypeError *)
+Definition cls_attr := mkcls 102 true true true.        (* AttributeError *)
 Definition cls_eqb (a b : cls) : bool :=
-  N.eqb (cid a) (cid b) && Bool.eqb (ctor0 a) (ctor0 b) && Bool.eqb (isexc a) (isexc b).
+  N.eqb (cid a) (cid b) && Bool.eqb (ctor0 a) (ctor0 b) && Bool.eqb (isexc a) (isexc b) && Bool.eqb (truthy a) (truthy b).
 
 Inductive hfn := FnInit | FnForce | FnCapture | FnEnter | FnExit | FnFiltExit | FnFiltCall.
 
@@ -105,7 +106,9 @@ Record sare := mksare { reraise : bool; type_ : option cls; value : option nat; 
 (* object state before __init__ runs *)
 Definition sare_blank (lab : N) : sare := mksare false None None [] lab.
 
-Inductive pverdict := PFalsy | PTruthy | PRaise.
+(* PReraise: the predicate raises the very exception it was handed (what a filter used as a predicate does
+   with an exception it rejects) *)
+Inductive pverdict := PFalsy | PTruthy | PRaise | PReraise.
 (* a predicate: verdict by the class of the object it is handed (None when handed None); when it
    raises: the class and label of what it raises and the wrapper frames between __exit__/__call__
    and the predicate itself *)
@@ -167,6 +170,13 @@ Definition call_pred (fn : hfn) (x : option nat) (h : hstate) : hstate * cres :=
   | PRaise =>
       let '(st, i) := alloc (mkobj (praise_cls p) (FHelper fn KCall :: puse p ++ [FPred]) (OSite (plab p)) None) (hst h) in
       (with_st h st, CRaise i)
+  | PReraise =>
+      match x with
+      | Some i => (with_st h (add_frame (FHelper fn KCall) i (add_frame (FHelper FnFiltCall KVal) i (hst h))), CRaise i)
+      | None =>   (* the inner filter's __call__ fails on None: exc_type() or raise None, by whether an exception is active *)
+          let '(st, i) := alloc (mkobj cls_type [FHelper fn KCall; FHelper FnFiltCall (match hstack (hst h) with [] => KCtor | _ => KVal end)] ONew None) (hst h) in
+          (with_st h st, CRaise i)
+      end
   end.
 
 Definition opt_nat_eqb (a b : option nat) : bool :=
@@ -177,6 +187,7 @@ Fixpoint ceval (fn : hfn) (c : hcond) (h : hstate) : hstate * cres :=
   match c with
   | CTypeNone t => (h, CB (is_none (get_t t h)))
   | CValNone v => (h, CB (is_none (get_v v h)))
+  | CFalsy v => (h, CB (match get_v v h with None => true | Some i => negb (truthy (cls_of (hst h) i)) end))
   | CFlag f => (h, CB (get_f f h))
   | CTbDiffers v b =>
       match get_v v h with
@@ -420,6 +431,45 @@ Fixpoint exec (b : body) (s : sare) (st : state) : sare * state * outcome :=
 Definition filt_get {O} (upred : O -> predspec) (obj : O) : predspec :=
   if gen_get_rebinds then upred obj else nopred.
 
+(* ------------------------------------------------------------------ exception_filter.__init__: filters of filters *)
+
+(* what exception_filter(...) can be handed: a function / bound method / callable object with predicate p — [named]:
+   it has the functools.WRAPPER_ASSIGNMENTS attributes (functions and methods do, a callable instance or a
+   functools.partial does not) — or another filter *)
+Inductive callable := CFun (named : bool) (p : predspec) | CFilt (f : filt)
+with filt := mkfilt (fpred : callable) (fnamed : bool).
+Definition fpred_of (f : filt) : callable := match f with mkfilt c _ => c end.
+Definition fnamed_of (f : filt) : bool := match f with mkfilt _ n => n end.
+Definition callable_named (c : callable) : bool := match c with CFun n _ => n | CFilt f => fnamed_of f end.
+
+(* __init__ as written: self._should_ignore_ex = c; if c has the wrapper attributes: functools.update_wrapper(self, c),
+   which copies them (so self has them too) and then merges c.__dict__ into self.__dict__ — when c is itself a filter
+   that merge OVERWRITES _should_ignore_ex with c's own predicate.  In the other order nothing is overwritten. *)
+Definition filt_init (c : callable) : filt :=
+  match gen_filt_init_order with
+  | AssignThenWrap =>
+      match c with
+      | CFun n _ => mkfilt c n
+      | CFilt f => if fnamed_of f then mkfilt (fpred_of f) true else mkfilt c false
+      end
+  | WrapThenAssign => mkfilt c (callable_named c)
+  end.
+
+(* a filter used AS a predicate: __call__ returns None (false) when its own predicate accepts, re-raises the
+   exception when it rejects *)
+Definition as_pred (q : predspec) : predspec :=
+  mkpred (fun x => match pv q x with PTruthy => PFalsy | PFalsy => PReraise | PRaise => PRaise | PReraise => PReraise end)
+         (praise_cls q) (plab q) (FHelper FnFiltCall KCall :: puse q).
+
+(* the predicate a filter actually consults *)
+Fixpoint callable_pred (c : callable) : predspec :=
+  match c with
+  | CFun _ p => p
+  | CFilt f => as_pred (filt_pred f)
+  end
+with filt_pred (f : filt) : predspec :=
+  match f with mkfilt c _ => callable_pred c end.
+
 (* ------------------------------------------------------------------ remove_path_on_error *)
 
 (* with remove_path_on_error(path, remove=...): <block>     at the statement whose frame entry is wf.
@@ -454,7 +504,7 @@ Definition rpoe_exit (rm : option cls) (wf : frame) (st : state) (out : outcome)
 
 (* ------------------------------------------------------------------ raise_with_cause *)
 
-Definition cls_caused := mkcls 103 false true.
+Definition cls_caused := mkcls 103 false true true.
 (* raise_with_cause(cls, msg [, cause=g]) at the statement with frame entry wf; given = None: no
    cause keyword; Some g: cause=g (g may be None).  The new object records the cause it was given. *)
 Definition rwc (c : cls) (given : option (option nat)) (wf : frame) (st : state) : state * outcome :=
@@ -525,6 +575,8 @@ Definition filt_exit_hand (p : predspec) (wf : frame) (st : state) (out : outcom
       | PFalsy => (st, Raised i)
       | PTruthy => (st, Normal)
       | PRaise => let '(st', j) := alloc (pred_exc p FnFiltExit) st in (add_frame wf j st', Raised j)
+      | PReraise =>
+          (add_frame wf i (add_frame (FHelper FnFiltExit KCall) i (add_frame (FHelper FnFiltCall KVal) i st)), Raised i)
       end
   end.
 
@@ -533,6 +585,11 @@ Definition filt_call_hand (p : predspec) (x : option nat) (st : state) : state *
   match pv p (option_map (cls_of st) x) with
   | PTruthy => (st, None)
   | PRaise => let '(st', j) := alloc (pred_exc p FnFiltCall) st in (st', Some j)
+  | PReraise =>
+      match x with
+      | Some i => (add_frame (FHelper FnFiltCall KCall) i (add_frame (FHelper FnFiltCall KVal) i st), Some i)
+      | None => let '(st', j) := alloc (mkobj cls_type [FHelper FnFiltCall KCall; FHelper FnFiltCall (match hstack st with [] => KCtor | _ => KVal end)] ONew None) st in (st', Some j)
+      end
   | PFalsy =>
       let cur := hd_error (hstack st) in
       if opt_nat_eqb cur x then
